@@ -14,7 +14,8 @@ C = dict(
         dict(module="TaskLifecycle", cfg="TaskLifecycle_MC2.cfg", tiers=["thorough"], workers=8),
     ],
     plan_sources=[
-        # every history of depth 3 (<= 1 store fault at any call, <= 1 restart, <= 1 probe, <= 1 request without effect;
+        # every history of depth 3 (<= 1 store fault at any call - of an API call, of the reload, of the pause caused by
+        # an error event -, <= 1 restart, <= 1 probe, <= 1 error event, <= 1 request without effect;
         # no settle / hold: those are in the simulated and directed plans):
         # sampled (quick) / all (thorough)
         dict(name="h3s", module="TaskLifecycle", cfg="TaskLifecycle_Plan3S.cfg", params=S, workers=8,
@@ -26,6 +27,12 @@ C = dict(
              cap={"quick": 90, "thorough": 4000}),
         dict(name="h4d", module="TaskLifecycle", cfg="TaskLifecycle_Plan4D.cfg", params=D, workers=8, tiers=["thorough"],
              cap={"thorough": 2500}),
+        # internal pauses: every history of depth 4 whose only fault hits the reload or the pause of an error event
+        # (reaches "pause of an already paused task": failed start of a persisted Paused task, late error event)
+        dict(name="ints", module="TaskLifecycle", cfg="TaskLifecycle_PlanIntS.cfg", params=S, workers=8,
+             cap={"quick": 60, "thorough": 100000}),
+        dict(name="intd", module="TaskLifecycle", cfg="TaskLifecycle_PlanIntD.cfg", params=D, workers=8,
+             cap={"quick": 40, "thorough": 100000}),
         # random deep histories
         dict(name="sims", module="TaskLifecycle", cfg="TaskLifecycle_PlanSimS.cfg", params=S,
              simulate={"quick": 30, "thorough": 1000}, depth=12, cap={"quick": 100, "thorough": 1500}),
@@ -39,7 +46,9 @@ C = dict(
     nontrivial=lambda t: any(e.get("ok") and e.get("op") in ("create", "pause", "resume", "delete", "restart")
                              for e in t["events"]),
     rule="plans = complete API histories of TaskLifecycle.tla over 2 tasks on 1 or 2 targets (create/pause/resume/delete/"
-         "get/list with the k-th store call failing, process restart + ReloadTask, settle = one second passes, hold/release "
+         "get/list with the k-th store call failing, process restart + ReloadTask with the k-th store call after the task list "
+         "failing, err = the reader machinery reports a failure for a task and the entity's event loop pauses it (k-th store "
+         "call failing), settle = one second passes, hold/release "
          "= the MQ registration of a start is blocked until released); exhaustive per configuration "
          "unless capped (then a VERIF_SEED sample), tlc -simulate for the deep ones, plus the directed plans; a trace is "
          "non-trivial if at least one state-changing call succeeded; distinct = distinct event sequences",
@@ -50,7 +59,12 @@ C = dict(
         "channel readers, channel writer",
         "no data flows through the streams (writer-side goroutines that only exist after the first replicated pack are "
         "not exercised)",
-        "restart = real process exit and a fresh process over the same store image + ReloadTask; no store faults during reload",
+        "restart = real process exit and a fresh process over the same store image + ReloadTask; a store fault may hit any "
+        "store call of the reload except the initial task list (ReloadTask panics on that one by design); the entity "
+        "factory does not fail",
+        "error events are written into the event channel of the target's real channel manager (what "
+        "replicateChannelHandler.sendErrEvent does) and consumed by the production event loop; they are not provoked by a "
+        "failing pack; at most one per entity incarnation (the loop ends after an error event)",
         "goroutines are attributed through pprof labels and classified by function name; parked error-waiter goroutines "
         "of startInternal are logged but not constrained; CPU: process CPU time over a quiescent window at the end of "
         "every plan (60 ms probe, re-measured over >= 300 ms when above 20 %, busy = above 40 % of one core)",
